@@ -8,7 +8,7 @@ use crate::model::MV;
 use proptest::prelude::*;
 use std::cmp::Ordering;
 
-pub const RULE: &str = "all ordered pairs (and, in the thorough tier, all triples; quick: a fixed-size random sample of triples) of a pool of ~150 data values dense in near-equal values (shared prefixes, permuted record keys, nested lists, +-0, proper prefixes, mixed types), plus random value pairs/triples; each pair is materialised in a fresh heap (equal strings in different cells) and the six dot operators and four u* built-ins are evaluated through the parser and evaluator and compared with the model's equality / partial order. Non-trivial = the two values differ but have the same type and a non-empty common prefix, or are records with permuted keys; distinct by the serialised pair.";
+pub const RULE: &str = "all ordered pairs (and, in the thorough tier, all triples; quick: a fixed-size random sample of triples) of a pool of ~150 data values dense in near-equal values (shared prefixes, permuted record keys, nested lists, +-0, proper prefixes, mixed types), plus random value pairs/triples; each pair is materialised in a fresh heap (equal strings in different cells) and the six dot operators and four u* built-ins are evaluated through the parser and evaluator and compared with the model's equality / partial order. Containers holding one heap cell several times ([a, a] vs [a, b], records, nested, operands swapped) must give every relation the unshared copies give. Non-trivial = the two values differ but have the same type and a non-empty common prefix, or are records with permuted keys; distinct by the serialised pair.";
 pub const ASSUMPTIONS: &[&str] = &[
     "the harness model of the order (model::mv::model_cmp / model_eq) transcribes the statement: numbers, booleans, strings by code point, lists lexicographic with proper prefix first, everything else unordered",
     "NaN is excluded from the pool (the statement quantifies over numbers other than NaN)",
@@ -320,6 +320,54 @@ pub fn check_pair(a: &MV, b: &MV, ctx: &mut Ctx) -> Outcome {
     sess3.bind_value("b", v);
     if sess3.obs("a .== b") != Ok(MV::Bool(true)) {
         fail!(format!("eq-reflexive:{}", a.type_name()), "a .== a is not true for {}", a.to_source(false));
+    }
+    // containers that hold the same heap cell several times (`x = [1]; [x, x]`): sharing is
+    // not observable, so every relation is the one of the unshared copies
+    if matches!(a, MV::List(_) | MV::Rec(_) | MV::Str(_)) {
+        let base = Sess::new();
+        base.bind("a", a);
+        base.bind("b", b);
+        let shapes: [(&str, &str, MV, MV); 4] = [
+            ("[a, a]", "[a, b]", MV::List(vec![a.clone(), a.clone()]), MV::List(vec![a.clone(), b.clone()])),
+            ("[a, b, a]", "[a, b, b]", MV::List(vec![a.clone(), b.clone(), a.clone()]), MV::List(vec![a.clone(), b.clone(), b.clone()])),
+            ("{p: a, q: a}", "{p: a, q: b}", MV::Rec(vec![("p".into(), a.clone()), ("q".into(), a.clone())]), MV::Rec(vec![("p".into(), a.clone()), ("q".into(), b.clone())])),
+            ("[[a], [a]]", "[[a], [b]]", MV::List(vec![MV::List(vec![a.clone()]), MV::List(vec![a.clone()])]), MV::List(vec![MV::List(vec![a.clone()]), MV::List(vec![b.clone()])])),
+        ];
+        for (ls, rs, lm, rm) in shapes {
+            let (Ok(lv), Ok(rv)) = (base.eval_src(ls), base.eval_src(rs)) else { continue };
+            for swap in [false, true] {
+                let shared = Sess::fresh_env_same_heap(&base);
+                let (x, y, xm, ym) = if swap { (rv, lv, &rm, &lm) } else { (lv, rv, &lm, &rm) };
+                shared.bind_value("a", x);
+                shared.bind_value("b", y);
+                let got = relations(&shared);
+                let plain = Sess::new();
+                plain.bind("a", xm);
+                plain.bind("b", ym);
+                let want = relations(&plain);
+                for i in 0..RELS.len() {
+                    let same = match (&got[i], &want[i]) {
+                        (Ok(p), Ok(q)) => p == q,
+                        (Err(_), Err(_)) => true,
+                        _ => false,
+                    };
+                    if !same {
+                        fail!(
+                            format!("shared-cells:{}:{}", RELS[i], tn),
+                            "with a = {} and b = {}: `{}` on {} and {} built from those cells{} gives {:?}, on unshared copies {:?}",
+                            a.to_source(false),
+                            b.to_source(false),
+                            RELS[i],
+                            ls,
+                            rs,
+                            if swap { " (operands swapped)" } else { "" },
+                            got[i],
+                            want[i]
+                        );
+                    }
+                }
+            }
+        }
     }
     Ok(())
 }
